@@ -160,7 +160,7 @@ def nontrivial(case, res):
 def run(ctx):
     out = common.Outcome()
     out.proof = common.proof_status(FAMILY, PROPFILE)
-    n = ctx.scale(700, 9000)
+    n = ctx.scale(2500, 40000)
     cases = sc.corpus_cases(PID) + [sc.gen_case(ctx.rng, WEIGHTS) for _ in range(n)]
     cases = [c['case'] if 'case' in c else c for c in cases]
     stats = {}
@@ -173,7 +173,7 @@ def run(ctx):
         out.failures.extend(oracle(case, res))
         if nontrivial(case, res):
             seen.add(sc.case_key(case))
-    nfn = ctx.scale(30, 300)
+    nfn = ctx.scale(60, 600)
     for _ in range(nfn):
         out.failures.extend(oracle_userfn(gen_userfn(ctx.rng)))
     out.evaluations = len(cases) + nfn
